@@ -126,7 +126,11 @@ def run(tape, scenario):
     from ebpfcat.serial import Serial
     from ebpfcat.terminals import EL6002
 
-    env = Env(tape, faults=WireFaults(delay_buckets=(50e-6, 20e-6, 200e-6)))
+    wf = WireFaults(delay_buckets=(50e-6, 20e-6, 200e-6))
+    env = Env(tape, faults=wf)
+    # in some runs a cyclic frame is lost now and then: the group re-sends after its 20 ms
+    # timeout, which must not disturb the handshake (no loss during start-up: no retry there)
+    loss_rate = tape.pick("cfg/loss", [0, 0, 0, 3, 10])
     world, bus = env.world, env.bus
     ec = EtherCat("sim0")
     nch = 1 if scenario == "one-channel" else 2
@@ -172,6 +176,7 @@ def run(tape, scenario):
 
     def update_devices(data):
         cycles[0] += 1
+        wf.loss = loss_rate if not finishing[0] else 0
         for i in range(nch):
             a = app[i]
             if a["active"] and a["rate"] and tape.chance(f"c28/app{i}/write", a["rate"]):
